@@ -784,3 +784,60 @@ Proof.
   rewrite P in Es2. rewrite E1 in Hs. rewrite Es2.
   apply nothing_after_timeout_lemma, Hs.
 Qed.
+
+(* ------------------------------------------------------------------ *)
+(* several calls through one interceptor instance                       *)
+
+Lemma wmstep_frame ss i e j : i <> j -> nth_error (wmstepT ss (i, e)) j = nth_error ss j.
+Proof. intros H. unfold wmstepT. cbn. apply nth_error_upd_other, H. Qed.
+
+Lemma wmstep_own ss i e :
+  nth_error (wmstepT ss (i, e)) i = option_map (fun s => wstepT s e) (nth_error ss i).
+Proof. unfold wmstepT. cbn. apply nth_error_upd_same. Qed.
+
+Lemma wmrun_proj : forall sched ss j,
+  nth_error (wmrun ss sched) j = option_map (fun s => wrun s (proj j sched)) (nth_error ss j).
+Proof.
+  induction sched as [|[i e] sched IH]; intros ss j.
+  - cbn. destruct (nth_error ss j); reflexivity.
+  - cbn [wmrun fold_left].
+    change (fold_left wmstepT sched (wmstepT ss (i, e))) with (wmrun (wmstepT ss (i, e)) sched).
+    rewrite IH. unfold proj. cbn [filter fst]. destruct (Nat.eqb_spec i j) as [E|E].
+    + subst j. rewrite wmstep_own. cbn [map snd]. destruct (nth_error ss i); reflexivity.
+    + rewrite wmstep_frame by exact E. reflexivity.
+Qed.
+
+Lemma calls_isolated_lemma ws sched i w :
+  nth_error ws i = Some w ->
+  exists s, nth_error (wmrun (wminit ws) sched) i = Some s /\
+            s = wrun (winit w) (proj i sched) /\
+            match wsst s with
+            | OWait => True
+            | ORet r e => wend w = WRet r e \/ (wdk s <> None /\ has_check w /\ (r, e) = wbail w)
+            | OTimeout k => wdk s = Some k
+            | OPanic p => wend w = WPanic p
+            end.
+Proof.
+  intros H. exists (wrun (winit w) (proj i sched)).
+  split; [|split; [reflexivity|apply slot_all_or_nothing_lemma]].
+  rewrite wmrun_proj. unfold wminit. rewrite (map_nth_error winit i ws H). reflexivity.
+Qed.
+
+(* what a call returned stays what it returned, whatever any call's threads do later *)
+Lemma isolated_result_final ws sched1 sched2 i w s1 :
+  nth_error ws i = Some w ->
+  nth_error (wmrun (wminit ws) sched1) i = Some s1 -> wsst s1 <> OWait ->
+  exists s2, nth_error (wmrun (wminit ws) (sched1 ++ sched2)) i = Some s2 /\ wsst s2 = wsst s1.
+Proof.
+  intros H H1 Hs.
+  destruct (calls_isolated_lemma ws sched1 i w H) as (s & E & Es & _).
+  assert (E1 : s1 = wrun (winit w) (proj i sched1)) by congruence.
+  destruct (calls_isolated_lemma ws (sched1 ++ sched2) i w H) as (s2 & E2 & Es2 & _).
+  exists s2. split; [exact E2|].
+  assert (P : proj i (sched1 ++ sched2) = proj i sched1 ++ proj i sched2).
+  { unfold proj. rewrite filter_app, map_app. reflexivity. }
+  rewrite Es2, P. unfold wrun at 1. rewrite fold_left_app.
+  change (fold_left wstepT (proj i sched2) (fold_left wstepT (proj i sched1) (winit w)))
+    with (wrun (wrun (winit w) (proj i sched1)) (proj i sched2)).
+  rewrite <- E1. apply slot_sticky, Hs.
+Qed.
